@@ -115,8 +115,9 @@ theorem suggest_sticky (cfg : Cfg) (st : Study) (client : String) (count : Nat) 
     (suggestBody cfg st client count alg).2.trials = st.trials ∧
     ∃ o, (suggestBody cfg st client count alg).1 = .op client o ((ownActive st client).take count) ∧
       o.done = true ∧ o.result = .trials (((ownActive st client).take count).map (·.id)) := by
-  unfold suggestBody
-  simp only [hdone]
+  rw [suggestBody_of_free _ _ _ _ _ (hdone)]
+  unfold suggestRest
+  simp only []
   have : (st.trials.filter fun t => t.state == .active && t.client == client).length ≥ count := hown
   simp only [this, if_true]
   exact ⟨rfl, _, rfl, rfl, rfl⟩
